@@ -7497,6 +7497,9 @@ write_make_seq(ostream &out, Object *obj, const std::string &ClassName,
 
   out <<
     "  PyObject *tuple = PyTuple_New(count);\n"
+    "  if (tuple == nullptr) {\n"
+    "    return nullptr;\n"
+    "  }\n"
     "\n"
     "  for (Py_ssize_t i = 0; i < count; ++i) {\n"
     "    PyObject *index = Dtool_WrapValue(i);\n";
